@@ -237,7 +237,7 @@ PROPS['C07'] = dict(
           'all 16 res, up to ~400 (quick) / 2e4 (thorough) cells. Stratum: boundaries of all res 0-1 cells and of all pentagons res<=6 (12) filled one and two levels finer. '
           'non-trivial = at least one candidate centre decided inside and one decided outside; distinct by polygon + res'),
     quick=dict(cases={'fast': 40_000, 'asan': 4_000}, enum={'fast': 4}),
-    thorough=dict(cases={'fast': 1_000_000, 'asan': 60_000}, enum={'fast': 8}),
+    thorough=dict(cases={'fast': 300_000, 'asan': 20_000}, enum={'fast': 8}),
     strata=dict(quick=['cell boundaries of all res 0..1 cells and pentagons res 2..6 as polygons, filled at +1/+2', 'pruning boundary: ancestors around the 20 face centres x res 0..14 x depth 1..3 x N/S/E/W-most descendant, tiny polygon around it'], thorough=['pentagons up to res 12']),
     level_text=('both fill algorithms are compared cell by cell with an independent binary128 crossing-number test of every candidate centre (candidates enumerated independently of the fill; centres within 1e-11 rad of an edge are undecided), '
                 'duplicates, validity and the announced maximum size are checked with exactly sized guarded buffers under ASan'),
